@@ -16,3 +16,7 @@ Extraction "model.ml"
   e_unimplemented oracle_C17 model_errorcode spec_fields
   decode_all eff_limit wrun xrun x_init frames serve encode_value oracle_C09 decode_value dval_of_value oracle_names names_verdict oracle_C13 oracle_C19 oracle_turns oracle_C05 oracle_C01 oracle_C12 turn_verdict
   run_case log_digest log_match strip_consume.
+
+(* the shutdown protocol model: a separate OCaml module *)
+Require Wire.CloseModel.
+Extraction "closemodel.ml" CloseModel.exec CloseModel.enabled CloseModel.init CloseModel.exec_pinned CloseModel.init_pinned.
